@@ -89,6 +89,12 @@ func (d *jsonDecoder) cutFieldsBySize(data []byte) []byte {
 			return jsonCutPos{}, false
 		}
 
+		// gjson leaves [v.Index] at 0 when the result is not a slice of data (modifiers such as a|@this, multipaths):
+		// there is nothing to cut in place then
+		if v.Index+len(v.Raw) > len(data) || string(data[v.Index:v.Index+len(v.Raw)]) != v.Raw {
+			return jsonCutPos{}, false
+		}
+
 		// [v.Index] is value start position including quote (");
 		// [v.Raw] is the value as written in data, quotes included: with escape sequences it is longer than [v.Str]
 		rawLen := len(v.Raw) - 2
